@@ -15,10 +15,15 @@ PROFILES = ("dev",)
 
 RULE = ("histories through the real kvarn::handle_cache in process (component vary.run, harness/src/c05.rs on top of c00pipe.rs) and over one loopback "
         "HTTP/1.1 connection served by kvarn::handle_connection (component vary.wire, harness/src/c05wire.rs: what SendKind::send wrote). Hosts with 1-4 "
-        "pages, each with a vary rule set of 0-3 rules (header name incl. mixed-case and non-token names, transformation from the many-to-few menu "
+        "pages, each with a vary rule set of 0-3 rules (header name incl. mixed-case and non-token names and names equal to / pieces of / extensions "
+        "of the fixed part of the vary header: accept, range, accept-encoding, encoding, ran, accept-enc, e, x-accept ..., transformation from the many-to-few menu "
         "{lower-case, first-byte class lo/hi/none, length mod 3, constant} implemented in Rust and in Gallina, default incl. defaults equal to a class), "
         "registered under the exact path or under a pattern '<prefix>*' (longer pattern / exact path win), server cache preference Full or QueryMatters, "
-        "bodies below and above the 50-byte floor of the compressor, with and without the default extensions (Prime uri_redirect in front); served by a "
+        "bodies below and above the 50-byte floor of the compressor, with and without the default extensions (Prime uri_redirect in front); pages "
+        "served through an INTERNAL ROUTE (a Prime extension of the harness answers the public path, after the redirect, with '/./...' [+ query]; two "
+        "public paths share one internal page; the vary rules are registered on the internal path and the public path has a rule set of its own on other "
+        "headers; with the default extensions a foreign Origin is rerouted to /./cors_fail, which has a rule set, too), incl. requests suspended in "
+        "the handler while the internal item is cleared (the item-creating arm of handle_vary_missing); served by a "
         "counting handler that echoes its own transformed tuple (and the query on QueryMatters pages), on 'picky' pages declaring no server caching "
         "for some tuples (those variants must be recomputed by every request and never appear in a dump); requests GET/HEAD/POST whose rule headers are "
         "absent, present (same class / different class), empty, repeated with values of different classes, or not text (obs-text bytes), with "
@@ -36,7 +41,9 @@ RULE = ("histories through the real kvarn::handle_cache in process (component va
         "query) was computed since the last clear, with exactly one otherwise; a 304 is the answer exactly when the date is fresh AND the request's own "
         "tuple was computed since the last clear (a 304 for any other tuple is a violation), whatever the Range header; every 200/206 body is the "
         "rendering of the request's own transformed tuple; "
-        "every response with a body carries exactly one vary line 'accept-encoding, range' + the rule headers of the page, 416/404/400/406 included; "
+        "every response with a body carries exactly one vary line whose comma-separated elements are accept-encoding, range and then exactly the rule "
+        "headers of the path the page is cached under (the internal path of a route; compared by what is listed - a repeated accept-encoding/range "
+        "is not fixed by the property - the text itself is compared with the model), 416/404/403/400/406 included; "
         "no dumped vector holds two variants with equal lists, and every dump holds exactly the tuples computed and admitted since the last clear. distinct_nontrivial = histories that stored >= 3 variants on one page / wire histories "
         "with >= 2 different statuses")
 ASSUMPTIONS = [
@@ -48,8 +55,16 @@ ASSUMPTIONS = [
     "sanitize and carry no If-Modified-Since (theorem hypotheses; for QueryMatters pages and conditional requests the same is checked by the Python "
     "history oracle and by the correspondence, and follows from vector_refines_assoc_list + C03's theorems)",
     "rule sets are looked up through the model of extensions::RuleSet (Model/RuleSet.v, C14's subject; here exact paths and patterns of different "
-    "lengths); internal '/./' override URIs of Prime extensions are not modelled in Model/Vary.v (cache key and vary rules are then those of the override "
-    "URI, kvarn 9992768 / 95589fa: C03's subject, Model/CacheX.v, to which vector_refines_assoc_list connects the vector model for hosts without them)",
+    "lengths). Prime extensions are an arbitrary function request -> (rewritten request, optional internal override URI) in the theorems "
+    "(Extensions::resolve_prime; kvarn 9992768 / 95589fa: handler, cache keys and vary rules are those of the override URI); in the runs: the redirect "
+    "Prime and the CORS denial of Extensions::new() and one route-table Prime of the harness (cfg ovroutes), which runs last; the CORS preflight Prime "
+    "(OPTIONS + access-control-request-method) is never triggered",
+    "what the cache layer reads of a request's method and headers is modelled as read off the looked-up URI's request (lreq q: the request with path and "
+    "query replaced by the override's): route_keeps_method_and_headers proves that it carries the real request's method and headers, and "
+    "variant_of_the_cached_path restates the served-variant theorem in terms of the real request's headers",
+    "the handler of an internal route must not render the URI of the page it is served for (kvarn caches its response under the internal URI and "
+    "serves it to every public path routed there): the fixture's internal pages echo the transformed tuple only; vary_cache_transparent states this as "
+    "part of C03's handler contract",
     "HeaderMap::get(&str) for rule names longer than 64 bytes is modelled by the same normalisation as for shorter ones (not generated)",
     "content negotiation is abstract (C06): bodies are compared after decoding content-encoding with standard decoders (bodies above the 50-byte floor "
     "with accept-encoding are generated); streaming responses (a `future` in the reply) are not modelled: handle_cache skips apply_header for a stream "
@@ -60,6 +75,9 @@ ASSUMPTIONS = [
     "theorem (invariant, refinement of Model/CacheX.v, served_copy_is_held); exercised by pages whose handler (kind 6, harness/src/c05.rs) declares no "
     "server caching for some transformed tuples; the other reasons for a refusal (status filter, kvarn-cache-control, size, a query-dependent variant "
     "of a path-keyed item) need per-variant statuses/headers/preferences the fixture does not have: exercised by C04 (pipex.run)",
+    "SendKind::send learns the URI a response was cached under from the request's extensions (extensions::InternalUri, put there by handle_cache: kvarn "
+    "100c33a): a caller that hands send a different request than the one handle_cache saw gets the rules of that request's path on the 416 page "
+    "(kvarn's own callers pass the same request; not run otherwise)",
     "on the wire: wire_vary_advertised assumes that the operator's Package extensions leave `vary` alone (hypothesis; the ones of Extensions::new() do, "
     "observed); what send does besides (content-length, connection, version) is C08's subject and not in Model/VaryWire.v; the answers handle_connection "
     "gives before a host's page is consulted (429 of the limiter, 409 for an unknown host) carry no vary and are outside the property (they do not "
@@ -77,28 +95,38 @@ ASSUMPTIONS = [
     "only (pages that do not switch between the preferences QueryMatters and Full)",
 ]
 TRUSTED = ["modelled: src/vary.rs (Settings::add_rule's assertion, VariedResponse::{new,push_response,get,get_headers_for_request,get_by_request,first}, "
-           "get_header, apply_header, apply_header_from_settings, derived Ord of Header and Ord of slices), src/lib.rs handle_cache + "
+           "get_header, apply_header, apply_header_from_settings, derived Ord of Header and Ord of slices), src/extensions.rs resolve_prime as a function "
+           "request -> (request, override URI) (the fixture's: uri_redirect, Cors denial, the harness's route table), src/lib.rs handle_cache + "
            "handle_cache_helpers::{maybe_cache, get_cache, handle_vary_missing}, comprash::{server_cache_lifetime, MokaCache::insert} (as in Model/CacheX.v, "
            "with the variant vector instead of an association list), Collection::clear_page + extensions::uri_redirect_target (Model/Cache.v "
            "redirect_target), SendKind::send as far as status, body and vary go (Model/VaryWire.v: the body dropped after 1xx/204/304, a 304 not "
            "range-sliced, apply_to_response = Model/Range.v, the 416 replacement, resolve_package abstract, HEAD), extensions::RuleSet::{add_mut,get} (Model/RuleSet.v), rustc 1.95 slice::binary_search_by (Model/RustStd.v), http 1.5.0 "
            "HeaderMap::get(&str) name normalisation (HEADER_CHARS), HeaderValue::to_str; handlers/transformations are the fixture menu "
-           "(harness/src/c00pipe.rs = Model/Fixture.v, kind 5 in harness/src/c05.rs = Model/Vary.v compute_c05); the dump reads the field names "
+           "(harness/src/c00pipe.rs = Model/Fixture.v, kinds 5/6 and the route-table Prime in harness/src/c05.rs = Model/Vary.v compute_c05 / route_fix / "
+           "prime_fix, the CORS denial = Model/CacheX.v cors_override + Model/Vary.v cors_denied_fat); the dump reads the field names "
            "`name`/`transformed` and string literals out of VariedResponse's Debug output (nothing else of it; an unreadable dump is skipped and reported, "
            "never a verdict); the wire client of c05wire.rs (own framing by content-length)"]
-LEVEL_TEXT = ("Coq theorems, for all rule sets (any number of rules, names, transformations, defaults), all header values and all histories "
+LEVEL_TEXT = ("Coq theorems, for all rule sets (any number of rules, names, transformations, defaults), all header values, every behaviour of the "
+              "Prime extensions (any function request -> rewritten request + optional internal override URI: the page is handled, looked up and cached "
+              "under the override URI if there is one, and the rules are those of THAT path at both sites that create a cache item) and all histories "
               "(requests, page clears, clear-all, waits/expiry): vary_served_for_equal_tuple — by an inductive invariant on the cache (every variant "
               "vector strictly sorted for Rust's Ord on [Header], built with the page's rules, every stored response computed for a request of that page "
-              "with exactly the stored transformed list) no step panics and every reply is a stored response computed for a request with the same "
-              "path and an equal transformed list (or the bare 304 that vouches for such a stored response - never for another tuple), or the "
-              "response computed now for this very request; variants_sorted (no two entries with equal lists); "
+              "with exactly the stored transformed list) no step panics and every reply is a stored response computed for a request cached under the same "
+              "path with an equal transformed list (or the bare 304 that vouches for such a stored response - never for another tuple), or the "
+              "response computed now for this very request; variant_of_the_cached_path spells that out in terms of the real request's headers and the "
+              "rules of the path the response is cached under (route_keeps_method_and_headers: the looked-up URI differs from the request in path and "
+              "query only); variants_sorted (no two entries with equal lists); "
               "lookup_refines_map / insert_refines_map / lookup_never_wrong_variant (rustc 1.95 binary_search_by on the vector = finite map; exact match "
               "even on an unsorted vector); vary_refines_map — the server's observations and handler invocations equal those of a finite-map server "
               "(page, transformed list) -> response for every history when GET/HEAD responses are cacheable under the path key without expiry; "
-              "computed_once_per_tuple; default_applied; vary_header_eq (exact equation, rule order) for the reply of handle_cache and "
+              "computed_once_per_tuple (classes = path cached under x transformed list); default_applied; vary_header_eq (exact equation, rule order, "
+              "rules of the path cached under) and vary_lists_every_rule_header (every rule header - whatever its name, also a piece of "
+              "'accept-encoding, range' - is a whole element of the list after the fixed part) for the reply of handle_cache and "
               "wire_vary_advertised for what SendKind::send passes to the connection: for every history, every sanitize verdict and every range, each "
               "response with a non-empty body — the reply, a range cut out of it, or the 416 page that replaces it — carries vary: accept-encoding, "
-              "range, <rule headers>, given Package extensions that leave vary alone; send_keeps_vary (send without replacement never changes vary); "
+              "range, <rule headers of the path cached under>, given Package extensions that leave vary alone; "
+              "wire_416_internal_route_v0_refuted: before kvarn 100c33a the 416 page of an internal route listed the rule headers of the request's "
+              "own path (fixture history reproduced on the code + for every page); send_keeps_vary (send without replacement never changes vary); "
               "wire_not_modified_as_is (a 304 is sent as it is whatever the Range header, fix 9ae9b1a); "
               "wire_416_without_vary_v0_refuted: before the repair of send (fix 21f0154) the 416 page had no vary (fixture history reproduced on the "
               "code + for every page); stale_position_safe for the repaired handle_vary_missing (second half of a request against any "
@@ -112,8 +140,9 @@ LEVEL_TEXT = ("Coq theorems, for all rule sets (any number of rules, names, tran
               "date L is told 'not modified' on the strength of an entry not younger than L only while that entry holds f for its tuple; a pushed "
               "variant that is not admitted to the cache - fixes 8fe98d4, 92a9cd2 - leaves the cache as it was; premises: "
               "later requests happen after L, one cache key per URL); vector_refines_assoc_list + "
-              "vary_cache_transparent connect the vector model to Model/CacheX.v (C03/C04's model of the merged code, all repairs on) and C03's "
-              "transparency (now without the premise that query-dependence is uniform per path). Tied to the repo by the differential run of the "
+              "vary_cache_transparent connect the vector model to Model/CacheX.v (C03/C04's model of the merged code, all repairs on, now with its override "
+              "URI instantiated by the real one instead of 'none') and C03's "
+              "transparency (without the premise that query-dependence is uniform per path). Tied to the repo by the differential run of the "
               "real kvarn::handle_cache and of kvarn::handle_connection (loopback) against the extracted models (incl. the order of the stored vector), "
               "the finite-map spec oracle and an independent Python reading of the property on the implementation's output. Not proved: the composition of "
               "honest_not_modified_sound with the one-second arithmetic of the freshness test (C04); streaming replies.")
@@ -482,7 +511,9 @@ def wire(rng):
             if not any(n == b"range" for (n, _) in hdrs):
                 hdrs.append((b"range", rng.choice(RANGES)))
         elif y < 0.5:
-            if not any(n == b"accept-encoding" for (n, _) in hdrs):
+            # (never together with a range: kvarn cuts the range out of the *coded* body - the selected representation -, which
+            # the harness cannot decode: C06 / C09's subject)
+            if not any(n in (b"accept-encoding", b"range") for (n, _) in hdrs):
                 hdrs.append((b"accept-encoding", rng.choice([b"gzip", b"br", b"identity"])))
         if rng.random() < 0.12:
             hdrs.append((b"if-modified-since", b"@T+100" if rng.random() < 0.7 else b"@T-100"))
